@@ -46,9 +46,10 @@ fn check_model_comments(model: &mut Model, rep: &mut Report, e: &SpannedExpr, w:
     rep.count("comment-piece-ties");
 }
 
-/// sources with carriage returns in comments / strings (the `lines()` round trip of
-/// format_binary_op_multiline rewrites them): model correspondence only — what the real code
-/// does to them is described in Props/C09.lean `carriage_return_is_stripped_from_comment`
+/// sources with carriage returns in comments / strings (until repo commit 6027914 the
+/// `lines()` round trip of format_binary_op_multiline deleted them; regression cases, see
+/// Props/C09.lean `carriage_return_is_kept_in_comment`): model correspondence only, the
+/// lexer-level scan of the oracle ends a comment in front of "\r\n"
 const CR_SOURCES: &[&str] = &[
     "y = l via x => [\n  v, // c\r\r\n]",
     "y = l via x => [\n  v, // c\r\r\n  w // d\r\r\n  // e\r\r\n]",
@@ -60,8 +61,8 @@ const CR_SOURCES: &[&str] = &[
     "y = l via x => do {\n  // a\r\r\n  t = \"q\r\n\"  // b\r\r\n  return t\n}",
 ];
 
-/// trees the parser cannot build: names that end in line feeds (the `lines()` round trip
-/// drops a final line feed), a trailing comment on a `return` item
+/// trees the parser cannot build: names that end in line feeds (the former `lines()` round
+/// trip dropped a final line feed), a trailing comment on a `return` item
 fn handmade_trees() -> Vec<SpannedExpr> {
     use blots_core::ast::{BinaryOp, Commented, Expr, Spanned};
     use blots_core::values::LambdaArg;
@@ -85,6 +86,13 @@ pub fn known_probes() -> Vec<(&'static str, &'static str)> {
         // the parser has nowhere to attach the comments of a list / record without items
         ("c09.comment-only-list", "x = [\n  // c\n]"),
         ("c09.comment-only-record", "x = {\n  // c\n}"),
+        // a comment at a line break INSIDE an expression is white space for the grammar
+        // (`NEWLINE = inline_comment? ~ plain_newline` is implicit white space): the AST has
+        // no slot for it and the parser drops it
+        ("c09.comment-at-line-break-in-expression", "z = 1 + // c\n  2"),
+        ("c09.comment-at-line-break-in-expression", "f = x => // c\n  x + 1"),
+        ("c09.comment-at-line-break-in-expression", "g = h(1, // c\n  2)"),
+        ("c09.comment-at-line-break-in-expression", "y = if a // c\n then 1 else 2"),
     ]
 }
 
@@ -99,7 +107,11 @@ pub fn run(ctx: &Ctx, rep: &mut Report) {
         rep.case(src, true);
         if let Ok(Ok((f, _))) = guarded(|| format_program(src, None)) {
             if let Some(d) = comments_differ(src, &f) {
-                rep.finding("oracle", "comments-changed", src, &d, key);
+                // own `what` per probe family: the report keeps only the first 5 findings per
+                // (kind, what), and the known ones must not use up the slots of
+                // "comments-changed" that a new finding on a generated program needs
+                let what = if key == "c09.comment-at-line-break-in-expression" { "comment-at-line-break-dropped" } else { "comments-changed" };
+                rep.finding("oracle", what, src, &d, key);
             }
         }
     }
